@@ -11,7 +11,7 @@ def correspondence(ctx):
     corr = Corr()
     cases = []
     # custom classes: 10-character alphabet incl. contextual code points with and without a registered rule
-    alpha = [0x61, 0x6C, 0xB7, 0x200D, 0x200C, 0x94D, 0x628, 0x65E5, 0x20000, 0x41, 0x661, 0x6F1, 0x30FB, 0x3042]
+    alpha = xa(ctx, [0x61, 0x6C, 0xB7, 0x200D, 0x200C, 0x94D, 0x628, 0x65E5, 0x20000, 0x41, 0x661, 0x6F1, 0x30FB, 0x3042], 4)
     maxlen = 3 if ctx.tier == 'quick' else 4
     labels = [s for s in all_strings(alpha, maxlen, 0)]
     nassign = 60 if ctx.tier == 'quick' else 400
